@@ -341,7 +341,7 @@ def d5(cx: Cx, ob: Ob) -> None:
             ob.undecide(f"triples yields `{show(y)[:50]}`")
             continue
         guards = [(g.a, g.b) for g in ctx.guards if g.kind == "guard"]
-        lp = ctx.loops[-1] if ctx.loops else None
+        lp = tuple(ctx.loops) if ctx.loops else None
         branches.append((ev, y, guards, lp))
         ob.site(f"{where(fn, ev.line)} {fn.qualname}", f"yield {show(y)[:50]}")
         if not any(op(g) == "cmp" and g[1] == "in" and g[2] == Pq and g[3] == ("attr", me, "query_predicates") and pol is True for g, pol in guards):
@@ -359,15 +359,18 @@ def d5(cx: Cx, ob: Ob) -> None:
         ev, y, guards, lp = b
         if lp is None:
             return None
-        # name the loop variables by their source
-        tgt = lp.a
-        it = lp.b
+        # name the loop variables by their source (itertools.product or nested loops)
+        from ..rules import _strip_views
+
         ren = {}
-        if op(tgt) == "tuple" and op(it) == "call" and it[1] == ("ext", "itertools.product"):
-            for v, src in zip(tgt[1], it[2]):
-                ren[v] = ("elem", src)
-        elif op(tgt) == "bv":
-            ren[tgt] = ("elem", it)
+        for one in lp:
+            tgt = one.a
+            it = one.b
+            if op(tgt) == "tuple" and op(it) == "call" and it[1] == ("ext", "itertools.product"):
+                for v, src in zip(tgt[1], it[2]):
+                    ren[v] = ("elem", _strip_views(src))
+            elif op(tgt) == "bv":
+                ren[tgt] = ("elem", _strip_views(it))
         yy = substitute(y, ren)
         gg = frozenset((g, pol) for g, pol in guards if any(x in (S, O) for x in subterms(g)))
         return yy, gg
